@@ -120,6 +120,12 @@ def classes():
                     self.bad.append((e.event_type.name, e.content, v))
 
     class M(DSOLModel):
+        """(the model is also a container of the entities in the system, and
+        empty while it is being constructed: its truth value is False)"""
+
+        def __len__(self):
+            return 0
+
         def __init__(self, sim, T, kind, obs, via, stop_at=None):
             super().__init__(sim)
             self.T = T
